@@ -221,9 +221,179 @@ def _apply_variant_table(node, table):
     return n
 
 
+LOG_MACROS = {"trace", "debug", "info", "warn", "error"}
+# methods that read their receiver and nothing else (std accessors on strings, slices, options, maps)
+PURE_ACCESSORS = {
+    "len", "is_empty", "to_string", "clone", "as_ref", "as_str", "iter", "count", "as_slice", "display", "to_owned", "first", "last", "get",
+    "is_some", "is_none", "is_ok", "is_err", "as_deref", "keys", "values", "contains", "contains_key", "starts_with", "ends_with", "chars",
+    "bytes", "copied", "cloned", "as_bytes", "trim", "peek", "bits", "to_vec", "unwrap_or_default", "as_mut", "borrow", "deref", "into",
+}
+
+
+def pure_expr(e):
+    """An expression whose evaluation reads values and does nothing else: paths, literals, field accesses, references, casts,
+    tuples/arrays of such, operators other than assignments, and calls of the std accessors above."""
+    if isinstance(e, list):
+        return all(pure_expr(x) for x in e)
+    if not isinstance(e, dict):
+        return True
+    k = e.get("k")
+    if k in ("path", "lit"):
+        return True
+    if k in ("field", "ref", "paren", "cast", "unary", "try_"):
+        return pure_expr(e.get("e"))
+    if k == "index":
+        return False  # may panic
+    if k in ("tuple", "array"):
+        return pure_expr(e.get("elems"))
+    if k == "binary":
+        op = e.get("op", "")
+        if op.endswith("=") and op not in ("==", "!=", "<=", ">="):
+            return False
+        return pure_expr(e.get("lhs")) and pure_expr(e.get("rhs"))
+    if k == "mcall":
+        return e.get("m") in PURE_ACCESSORS and pure_expr(e.get("recv")) and pure_expr(e.get("args"))
+    if k == "macro" and e.get("name") in ("format", "format_args", "stringify", "concat"):
+        return pure_expr(e.get("args") or [])
+    return False
+
+
+def is_pure_log(st):
+    """`log::debug!(..);` (any level) whose arguments only read values — the statement does nothing but log."""
+    if not (isinstance(st, dict) and st.get("k") == "expr" and isinstance(st.get("e"), dict)):
+        return False
+    m = st["e"]
+    if m.get("k") != "macro" or m.get("name") not in LOG_MACROS:
+        return False
+    pth = (m.get("path") or "").replace(" ", "")
+    if pth not in (m["name"], "log::" + m["name"], "::log::" + m["name"]):
+        return False
+    if m.get("args") is None:
+        return False
+    return all(pure_expr(a) for a in m["args"])
+
+
+def _count_var(node, name):
+    n = 0
+    if isinstance(node, list):
+        return sum(_count_var(x, name) for x in node)
+    if isinstance(node, dict):
+        if node.get("k") == "path" and node.get("segs") == [name] and node.get("qself") is None:
+            return 1
+        if node.get("k") == "macro" and node.get("args") is None:
+            return 99  # tokens we cannot see into
+        if node.get("k") == "lit" and node.get("t") == "str" and ("{" + name) in str(node.get("v")):
+            return 99  # captured by a format string
+        for v in node.values():
+            if isinstance(v, (dict, list)):
+                n += _count_var(v, name)
+    return n
+
+
+def _subst_var(node, name, repl):
+    if isinstance(node, list):
+        return [_subst_var(x, name, repl) for x in node]
+    if isinstance(node, dict):
+        if node.get("k") == "path" and node.get("segs") == [name] and node.get("qself") is None:
+            return copy.deepcopy(repl)
+        return {k: _subst_var(v, name, repl) for k, v in node.items()}
+    return node
+
+
+def _others_pure(t, name):
+    """In T, everything evaluated besides the one occurrence of `name` is pure (so moving E to that place changes no order)."""
+    if isinstance(t, dict) and t.get("k") == "path" and t.get("segs") == [name]:
+        return True
+    if not isinstance(t, dict):
+        return True
+    k = t.get("k")
+    if k in ("field", "ref", "paren", "cast", "unary"):
+        return _others_pure(t.get("e"), name)
+    if k == "mcall":
+        if _count_var(t.get("recv"), name) == 1 and pure_expr(t.get("args")):
+            return (t.get("m") in PURE_ACCESSORS or True) and _others_pure(t["recv"], name)
+        return False
+    if k == "call":
+        # a constructor / function applied to the value: F(x) — the callee path is not evaluated before its argument in any
+        # observable way
+        return len(t.get("args", [])) == 1 and _count_var(t["args"][0], name) == 1 and t["f"].get("k") == "path" and _others_pure(t["args"][0], name)
+    return False
+
+
+def _has_try_or_parse(node):
+    """`let x = PARSER.parse_next(input)?;` is a parsing step (the engines read the statement list of a parser function as its
+    steps) and `?` is control flow: such a binding stays a statement."""
+    if isinstance(node, list):
+        return any(_has_try_or_parse(x) for x in node)
+    if isinstance(node, dict):
+        if node.get("k") == "try" or (node.get("k") == "mcall" and node.get("m") in ("parse_next", "parse_peek", "parse")):
+            return True
+        return any(_has_try_or_parse(v) for v in node.values() if isinstance(v, (dict, list)))
+    return False
+
+
+def _simplify_blocks(node, log, where):
+    """N5  statements that only log are dropped.
+    N6  `{ let x = E; x }` is `E`;  N8  `{ let x = E; T }` with one use of x in T, everything else in T pure, is `T[x := E]`.
+    N7  `if C { }` without else and with a pure condition is nothing.
+    N9  a closure body `{ E }` is `E`."""
+    n = 0
+    if isinstance(node, list):
+        for x in node:
+            n += _simplify_blocks(x, log, where)
+        return n
+    if not isinstance(node, dict):
+        return 0
+    for v in node.values():
+        if isinstance(v, (dict, list)):
+            n += _simplify_blocks(v, log, where)
+    if node.get("k") == "block" and isinstance(node.get("stmts"), list):
+        st = node["stmts"]
+        keep = [s_ for s_ in st if not is_pure_log(s_)]
+        if len(keep) != len(st):
+            n += len(st) - len(keep)
+            st = keep
+        keep = []
+        for s_ in st:
+            e_ = s_.get("e") if isinstance(s_, dict) and s_.get("k") == "expr" else None
+            if isinstance(e_, dict) and e_.get("k") == "if" and e_.get("else") is None and isinstance(e_.get("then"), dict) and e_["then"].get("k") == "block" and not e_["then"].get("stmts") and e_["cond"].get("k") != "letexpr" and pure_expr(e_["cond"]):
+                n += 1
+                continue
+            keep.append(s_)
+        st = keep
+        changed = True
+        while changed and len(st) >= 2:
+            changed = False
+            a, b = st[-2], st[-1]
+            if isinstance(a, dict) and a.get("k") == "let" and a.get("else") is None and a.get("init") is not None and isinstance(b, dict) and b.get("k") == "expr" and not b.get("semi"):
+                p_ = a["pat"]
+                while isinstance(p_, dict) and p_.get("k") == "typed":
+                    p_ = p_["pat"]
+                if isinstance(p_, dict) and p_.get("k") == "ident" and not p_.get("by_ref") and not p_.get("sub"):
+                    nm = p_["name"]
+                    if _count_var(b["e"], nm) == 1 and _others_pure(b["e"], nm) and _count_var(a["init"], nm) == 0 and not _has_try_or_parse(a["init"]):
+                        st = st[:-2] + [dict(b, e=_subst_var(b["e"], nm, a["init"]))]
+                        n += 1
+                        changed = True
+        node["stmts"] = st
+    if node.get("k") == "closure" and isinstance(node.get("body"), dict) and node["body"].get("k") == "block":
+        bst = node["body"].get("stmts") or []
+        if len(bst) == 1 and isinstance(bst[0], dict) and bst[0].get("k") == "expr" and not bst[0].get("semi") and not node["body"].get("unsafe") and not node["body"].get("label"):
+            node["body"] = bst[0]["e"]
+            n += 1
+    return n
+
+
 def apply(facts):
     facts.normalised = []
     import re as _re
+
+    for key, fn in facts.fns.items():
+        if fn.body is None or fn.test:
+            continue
+        k_ = _simplify_blocks(fn.node["body"], facts.normalised, key)
+        if k_:
+            facts.normalised.append("%s: %d pure log statements / single-use bindings / empty conditionals folded" % (key, k_))
 
     for key, fn in facts.fns.items():
         if fn.body is None:
